@@ -118,7 +118,10 @@ def check_nodes(g, hasher):
     ok = True
     for n in g.nodes:
         raw = n.__xpm__.raw_identifier
-        want = R.digest(R.signature(n), hasher)
+        if SHARD.get("data") == "concrete":
+            want = raw.main  # history conditions: the full identifier (which embeds the raw one) is compared
+        else:
+            want = R.digest(R.signature(n), hasher)
         if not (hashing.raw(raw.main) == hashing.raw(want)):
             rt.note("raw identifier mismatch on", type(n).__name__, hashing.raw(raw.main).hex() if rt.concrete() else "")
             ok = False
@@ -159,7 +162,10 @@ def ident_history(
     # task is internal API misuse (its identifier is fixed at submission):
     # only offered on task-free graphs
     with_raw = SHARD.get("ops", "all") == "all"
-    kinds = (["raw"] if with_raw else []) + ["full", "seal"]
+    # "set" = assign a new symbolic value to an int parameter of an unsealed
+    # node (the content changes: the reference follows, stale caches do not)
+    kinds = (["raw"] if with_raw else []) + ["full", "seal", "set"]
+    zs = [i7 if SHARD.get("symz") else 77, 78, 79, 80, 81, 82]  # assigned values (first one symbolic in thorough)
     nops = len(kinds) * n + (0 if g.extra.get("tasks") else 1)
     first = SHARD.get("h0")
     for ix, h in enumerate(hs):
@@ -174,7 +180,17 @@ def ident_history(
             rt.note("unseal root")
             continue
         kind, j = kinds[op // n], op % n
-        if kind == "raw":
+        if kind == "set":
+            nd = g.nodes[j]
+            z = zs[ix]
+            if nd.__xpm__._sealed or not (-(2**63) <= z < 2**63):
+                continue
+            name = next((nm for nm, a in nd.__xpmtype__.arguments.items() if a.type.__class__.__name__ == "IntType" and not a.constant and not a.ignored and a.generator is None), None)
+            if name is not None:
+                # (the setattr() builtin runs its target untraced under
+                # CrossHair: call what the parameter property calls)
+                nd.__xpm__.set(name, z)
+        elif kind == "raw":
             g.nodes[j].__xpm__.raw_identifier
         elif kind == "full":
             g.nodes[j].__xpm__.full_identifier
@@ -278,11 +294,11 @@ def conditions(tier):
         else:
             k = 4 if sk in caching else 3
         n = NODES[sk]
-        nops = (2 if ops == "full" else 3) * n + (0 if sk in ("taskself", "taskout", "tasklist") else 1)
+        nops = (3 if ops == "full" else 4) * n + (0 if sk in ("taskself", "taskout", "tasklist") else 1)
         firsts = list(range(nops)) if (sk in caching and n >= 3) else [None]
         for fs in ([0] * 8, [1] * 8) if tier == "thorough" or sk not in caching else ([1] * 8,):
             for h0 in firsts:
                 nm = f"history/{sk}/k{k}sel{fs[0]}" + (f"first{h0}" if h0 is not None else "")
-                conds.append({"name": nm, "func": "ident_history", "shard": {"sk": sk, "k": k, "lens": [1] * nstr, "fixed_sels": fs, "data": "concrete", "ops": ops, "h0": h0}, "timeout": 400 if tier == "quick" else 2400})
+                conds.append({"name": nm, "func": "ident_history", "shard": {"sk": sk, "k": k, "lens": [1] * nstr, "fixed_sels": fs, "data": "concrete", "ops": ops, "h0": h0, "symz": tier == "thorough"}, "timeout": 400 if tier == "quick" else 2400})
     conds.append({"name": "golden", "func": "golden", "shard": {"real_hash": 1}, "timeout": 300})
     return conds
